@@ -58,6 +58,24 @@ pub fn check_fn(prop: &str) -> CheckFn {
 }
 
 pub fn run(prop: &str, ctx: &mut Ctx) {
+    // AISVERIF_ONLY_FUZZ=1 (testing aid): skip the generated part and run only the campaigns
+    if std::env::var("AISVERIF_ONLY_FUZZ").is_err() {
+        run_generated(prop, ctx);
+    }
+    if ctx.tier == crate::engine::Tier::Thorough && ctx.violations.is_empty() {
+        let check = check_fn(prop);
+        if crate::fuzzglue::takes_history(prop) {
+            ctx.fuzz_campaign("fz_lines", 1_200_000, true, check);
+            ctx.fuzz_campaign("fz_lines", 400_000, false, check);
+        }
+        if crate::fuzzglue::takes_payload(prop) || crate::fuzzglue::takes_unarmor(prop) {
+            ctx.fuzz_campaign("fz_payload", 2_000_000, true, check);
+            ctx.fuzz_campaign("fz_payload", 500_000, false, check);
+        }
+    }
+}
+
+fn run_generated(prop: &str, ctx: &mut Ctx) {
     match prop {
         "C01" => c01::run(ctx),
         "C02" => c02::run(ctx),
